@@ -169,7 +169,7 @@ def wire_checks(ctx):
 
 def run(ctx: core.Ctx):
     rng = ctx.rng
-    pr = core.check_proofs(ctx, "Props/C18")
+    pr = core.check_proofs(ctx, "Props/C18", headers=[HEADER])
     samples, disagreements = [], []
     distinct = set()
     witness = None
